@@ -582,6 +582,99 @@ def rule_wasm_release(ck, facts):
         ck.bad(R, key, "the WASM back end lowers ReleaseUserSum to a call of the import `%s`, and the host function behind it (%s) never touches the heap storage (the generator also passes placeholder arguments): every boxed value allocated on WASM lives for ever — `let l = Cons(now, Cons(2.0, Nil))` in dsp grows the host's heap by two objects per sample" % (name, host.short), host.where())
 
 
+def clone_inserters(facts):
+    """the MIR generator's retain walker by role: the recursive function over `Type` that emits the retaining
+    instructions (CloneHeap / CloneUserSum)"""
+    lang = facts.crate(roles.LANG)
+    out = set()
+    for f in lang.fns:
+        if "::compiler::mirgen" not in f.path or f.kind != "assoc":
+            continue
+        emits = {s[5][1][3] for _, s in f.all_stmts() if s[KIND] == "a" and s[5][0] == "agg" and s[5][1][0] == "adt" and s[5][1][1] == roles.MIR_INSTR}
+        if emits & {"CloneHeap", "CloneUserSum"} and any((callee(t) or "") == f.path for g in facts.family(roles.LANG, f.root) for _, t in g.calls()):
+            out.add(f.path)
+    return out
+
+
+def rule_projection_clone(ck, facts, R="C12.pairing"):
+    """an element read out of an aggregate value gets its own reference"""
+    from ..symex import PathLimit, SymEx
+
+    lang = facts.crate(roles.LANG)
+    cl = clone_inserters(facts)
+    ck.require(R, bool(cl), "anchor|clone-inserter", "the MIR generator's retain walker (recursive over Type, emits CloneHeap / CloneUserSum) was not found")
+    evals = [f for f in lang.fns if "::compiler::mirgen" in f.path and f.kind == "assoc" and (cv := cover.coverage(facts, f, roles.EXPR)) is not None and cv.primary is not None and len(cv.primary_handled()) >= 20]
+    n = 0
+    for f in evals:
+        cov = cover.coverage(facts, f, roles.EXPR)
+        for v in sorted(cov.primary_handled()):
+            tb = cov.arm_target(v)
+            if tb is None:
+                continue
+            region = reachable(f, tb, stop=[cov.primary.block])
+            if not any(s[KIND] == "a" and s[5][0] == "agg" and s[5][1][0] == "adt" and s[5][1][1] == roles.MIR_INSTR and s[5][1][3] == "GetElement" for b in region for s in f.bb[b]["s"]):
+                continue
+            sx = SymEx(f, payload_place=cov.primary.place, max_paths=300, max_steps=30000, facts=facts)
+            try:
+                paths = sx.run(tb)
+            except PathLimit:
+                paths = sx.paths
+            handed, cloned = 0, 0
+            for p in paths:
+                if p.end != "return":
+                    continue
+                r0 = p.env.get(0)
+                # the arm's value is the result of pushing a GetElement: the element goes to whoever evaluated the
+                # expression (a binder, an argument, an operand)
+                val = r0[2][0] if (r0 and r0[0] == "agg" and r0[2]) else r0
+                while val and val[0] in ("call",) and val[1].split("::")[-1] == "clone" and val[2]:
+                    val = val[2][0]
+                    while val and val[0] in ("ref", "deref"):
+                        val = val[1]
+                if not (val and val[0] == "call" and "GetElement" in repr(val[2]) and "push_inst" in val[1]):
+                    continue
+                handed += 1
+                if any(e[0] == "call" and e[1] in cl and repr(val) in repr(e[2]) for e in p.events):
+                    cloned += 1
+            if not handed:
+                continue
+            n += 1
+            key = "projection-clone|%s|%s" % (f.short.split("::")[-1], v)
+            if cloned == handed:
+                ck.ok(R, key, {"paths": handed})
+            else:
+                ck.bad(R, key, "%s (arm %s) hands an element it reads out of an aggregate value (GetElement) on as the value of the expression without retaining it (%d of %d paths call the retain walker on it): the binder or callee that receives it releases it at its scope end, so each evaluation takes one reference away from a box / closure the aggregate still points to (use after release), while the sibling projection retains" % (f.short, v, cloned, handed), f.where(f.term(tb)))
+    ck.floor(R, "projection_arms", n, 2)
+
+
+def rule_release_order(ck, facts, R="C12.offsets"):
+    """what a dying object owns is read before the object is given back"""
+    from ..cfg import dominators
+
+    lang = facts.crate(roles.LANG)
+    n = 0
+    for f in lang.fns:
+        if "::runtime::" not in f.path or f.kind == "promoted" or "::test" in f.path:
+            continue
+        rel = [(b, t) for b, t in f.calls() if (callee(t) or "").split("::")[-1] in ("heap_release", "remove") and ("heap" in (callee(t) or "").lower() or "SlotMap" in (callee(t) or ""))]
+        if not rel:
+            continue
+        dom = dominators(f)
+        for b, t in rel:
+            if t[7] is None:
+                continue
+            n += 1
+            # the rest of this activation's straight-line work (not the next loop iteration)
+            after = reachable(f, t[7], avoid=[d for d in dom[b] if d != b])
+            gets = [(b2, t2) for b2, t2 in f.calls() if b2 in after and (callee(t2) or "").split("::")[-1] in ("get", "get_mut", "index", "index_mut", "get_unchecked") and ("SlotMap" in (callee(t2) or "") or "heap" in (callee(t2) or "").lower())]
+            key = "release-order|%s" % f.short.split("::")[-1]
+            if gets:
+                ck.bad(R, key, "%s looks an object up in the heap storage after it has released a handle to that storage on the same path: when the release was the last reference the object is gone, the lookup answers `None` (or another object that took the slot), and the values the object owned — nested boxes, closures — are never released" % f.short, f.where(gets[0][1]))
+            else:
+                ck.ok(R, key)
+    ck.floor(R, "heap_release_sites", n, 8)
+
+
 def _places(x):
     out = []
     if isinstance(x, list):
@@ -600,8 +693,10 @@ def run(ck, facts, tier):
     rule_wasm_release(ck, facts)
 
     rule_pairing(ck, facts, None)
+    rule_projection_clone(ck, facts)
     rule_walker_recursion(ck, facts)
     rule_vm_walker_offsets(ck, facts)
+    rule_release_order(ck, facts)
     rule_return_arms(ck, facts)
     rule_creation_registers(ck, facts)
     rule_walkers(ck, facts)
